@@ -12,7 +12,7 @@ import (
 )
 
 func init() {
-	register("C17", c17Tables, c17Cookie, c17Keep, c17Slot, c17Fill, c17Stale, c17CTL, c04Slots, c07Order, c17DeepCopy, c17ParseFresh, func(e *Env) {
+	register("C17", c17Tables, c17Cookie, c17Keep, c17Slot, c17Fill, c17Stale, c17CTL, c04Slots, c07Order, c17DeepCopy, c17ParseFresh, c09DstTrunc, func(e *Env) {
 		dispatchAgreement(e, "C17.dispatch", func(fi *core.FuncInfo) bool { return fi.Obj.Name() == "ParseBytes" && fi.Pkg.PkgPath == pkgProto })
 	})
 }
